@@ -196,6 +196,10 @@ class Registry:
                 zs.append(z3.IntVal(v.obj))
             elif isinstance(v, VScalar):
                 zs.append(v.z)
+            elif type(v).__name__ in ("VSet", "VList", "VDict", "VTuple", "VODict"):
+                # the printed form of a container: an arbitrary string (nothing may be concluded from it)
+                zs.append(z3.Const(fresh_name("fstr_container_text"), eng.S.Atom))
+                self.note("text of a container inside an f-string treated as an arbitrary string")
             else:
                 raise Unsupported("f-string piece %s" % type(v).__name__, node)
         fn = eng.S.func("fstr_%d_%s" % (len(zs), "".join(ch if ch.isalnum() else "_" for ch in skeleton)[:30] + "_" + "_".join(str(z.sort()) for z in zs)), *[z.sort() for z in zs], eng.S.Atom)
